@@ -5,6 +5,7 @@ import json
 
 from sfv.framework import Ctx, Property
 from sfv.rt import wfcheck, wfgen
+from sfv.translate import stepguards
 
 KNOWN_LOOP_HANG = "hang:LoopCombinatorStep-keeps-reading-after-FAILED-termination-on-another-input-port"
 KNOWN_CANCEL = "executor-_cancel-marks-closed:FAILED-termination-on-an-output-port:steps-still-running-when-run-raises"
@@ -79,10 +80,10 @@ def _fail_node(spec: dict):
 class C04(Property):
     pid = "C04"
     title = "Every well-formed workflow terminates, and failures terminate every step"
-    lean_targets = ["SFV.Props.C04"]
-    props_files = ["SFV/Props/C04.lean"]
+    lean_targets = ["SFV.Props.C04", "SFV.Props.C04Loop", "SFV.Props.C04Guards"]
+    props_files = ["SFV/Props/C04.lean", "SFV/Props/C04Loop.lean", "SFV/Props/C04Guards.lean"]
     drivers = ["Drivers/Net.lean"]
-    translators = []
+    translators = [stepguards.generate]
     rule = ("random well-formed DAG workflows (sfv.rt.wfgen: 2..12 nodes from the real step classes — transformers, scatter/gather "
             "incl. unknown-size and depth-2 gathers, dot / cartesian combinators, conditional steps, schedule/transfer/execute job "
             "pipelines) run on the real StreamFlowExecutor under the default asyncio order and 3 (quick) / 6 (thorough) PRNG task "
@@ -100,6 +101,8 @@ class C04(Property):
         "token-level reason why a step terminates once its inputs terminated (C03 + the run loops); a step is an atomic unit that "
         "finishes after its producers or raises",
         "generator harness/sfv/rt/wfgen.py (well-formedness filter py_den; GenTransformer / GenConditionalStep subclasses)",
+        "translator harness/sfv/translate/stepguards.py (ast patterns for _reduce_statuses, _get_status, the executor's cancel / raise "
+        "tests and whether _cancel calls close() -> SFV/Gen/StepGuards.lean)",
     ]
     technique = "Lean 4 transition system of the executor protocol (progress, variant, invariants, negative witness) + randomized real-engine runs under controlled interleavings with a watchdog"
     level_text = ("grade B (partial): on the abstract step-graph model every scheduler terminates within n step actions with all steps "
@@ -118,7 +121,7 @@ class C04(Property):
 
     def _plan(self, ctx: Ctx):
         if ctx.tier == "thorough":
-            n, k = 300, 6
+            n, k = 200, 6
         else:
             n, k = 50, 3
         if ctx.mode == "search":
@@ -139,6 +142,9 @@ class C04(Property):
                 break
             feats = {"exec": 4} if rng.random() < 0.3 else ({"loop": 3} if rng.random() < 0.3 else None)
             spec = wfgen.gen_spec(rng, size=rng.randint(2, 12), features=feats)
+            if i < len(wfgen.CORPUS):
+                spec = json.loads(json.dumps(wfgen.CORPUS[i]))
+                ctx.corpus_replayed += 1
             failing = rng.random() < 0.5
             fspec = wfgen.choose_failure(rng, spec) if failing else None
             if fspec is None:
